@@ -514,6 +514,10 @@ impl DmlExecutor {
             ) {
                 // Insert operation
                 (None, Some(values), None) => {
+                    // A row with NULL in an indexed column has no index entry (NULLs never collide)
+                    if index.indexed_column_ids().iter().any(|c| values.get(*c).is_none_or(|v| v.is_null())) {
+                        continue;
+                    }
                     let index_row = Self::build_index_entry(&values, index, index_schema, row_id)?;
                     let index_tuple =
                         TupleBuilder::from_schema(index_schema).build(&index_row, tid)?;
@@ -537,6 +541,9 @@ impl DmlExecutor {
                 // New values was set to [None] which means we are on a delete operation. Then we need to perform the maintenance in a different way.
                 // Delete operation
                 (Some(values), None, None) => {
+                    if index.indexed_column_ids().iter().any(|c| values.get(*c).is_none_or(|v| v.is_null())) {
+                        continue;
+                    }
                     let index_row = Self::build_index_entry(&values, index, index_schema, row_id)?;
                     let index_tuple =
                         TupleBuilder::from_schema(index_schema).build(&index_row, tid)?;
